@@ -5,7 +5,7 @@ CONSTANTS
   Layouts = {"packed", "sizefield", "strlen"}
   Chars <- Chars012
   Lits <- LitsQ
-  PosDom <- Pos2
+  PosDom <- Pos2q
   SubDom <- SubQ
   OtherVals <- OtherQ
   Junk = {9}
